@@ -1,31 +1,7 @@
 /-
-  Line-protocol driver: one JSON array request per line, one JSON response per line.
-  Run with `lake env lean --run Driver.lean`. Unknown op / malformed line → ["bad-op"].
+  Line-protocol driver with every property's handlers (development convenience).
+  The checks run per-property drivers generated under lean/drivers/ (see harness/leanio.py),
+  so that one property's driver does not depend on another property's files.
 -/
 import Kopf.Drv.All
-open Lean Kopf.Drv
-
-def respond (line : String) : Json :=
-  match Json.parse line with
-  | .error _ => .arr #[.str "bad-op"]
-  | .ok (.arr xs) =>
-    match xs.toList with
-    | .str op :: args =>
-      match allHandlers.findSome? (fun h => h op args) with
-      | some r => r
-      | none => .arr #[.str "bad-op"]
-    | _ => .arr #[.str "bad-op"]
-  | .ok _ => .arr #[.str "bad-op"]
-
-partial def loop (h : IO.FS.Stream) (out : IO.FS.Stream) : IO Unit := do
-  let line ← h.getLine
-  if line.isEmpty then return ()
-  let l := line.trimAscii.toString
-  if l.isEmpty then loop h out else
-  out.putStrLn (respond l).compress
-  loop h out
-
-def main : IO Unit := do
-  let out ← IO.getStdout
-  loop (← IO.getStdin) out
-  out.flush
+def main : IO Unit := Kopf.Drv.runDriver Kopf.Drv.allHandlers
